@@ -300,6 +300,14 @@ class Check:
         rc = 0
         seen_sig = set()
         os.makedirs(os.path.join(VERIF, "replays"), exist_ok=True)
+        # replay files of earlier runs of this property are stale (kept while a --replay run reads one)
+        if not os.environ.get("VERIF_KEEP_REPLAYS"):
+            import glob
+            for f in glob.glob(os.path.join(VERIF, "replays", "%s-*.json" % self.pid)):
+                try:
+                    os.unlink(f)
+                except OSError:
+                    pass
         for sig, det in new:
             if sig in seen_sig:
                 continue
